@@ -27,49 +27,6 @@ Proof.
     destruct (add_nodes _ _ _ _ _ _ _ _) as [[[[g cu] pn] pb]|]; cbn [bind] in H; [|discriminate]. injection H as <-. split; reflexivity.
   - cbn [bind] in H. destruct (add_nodes _ _ _ _ _ _ _ _) as [[[[g cu] pn] pb]|]; cbn [bind] in H; [|discriminate]. injection H as <-. split; reflexivity.
 Qed.
-(** ** the keys of the recipe table are pairwise different (all that a multiplied branch needs since the
-    expansion slice starts at the closing anchor's own entry: fix ee9caf1) *)
-Definition ninv (st : rstate) : Prop := NoDup (map fst (s_recipes st)).
-Lemma ozdec (a b : option Z) : {a = b} + {a <> b}.
-Proof. decide equality. apply Z.eq_dec. Qed.
-Lemma nodup_snoc {A} (l : list A) k : NoDup l -> ~ In k l -> NoDup (l ++ [k]).
-Proof.
-  induction 1 as [|x l Hx Hl IH]; cbn [app]; intros Hk.
-  - constructor; [intros []|constructor].
-  - constructor.
-    + intros C. apply in_app_or in C as [C|[C|[]]]; [now apply Hx|subst; apply Hk; now left].
-    + apply IH. intros C. apply Hk. now right.
-Qed.
-Lemma rec_del_keys_incl k d y : In y (map fst (rec_del k d)) -> In y (map fst d).
-Proof.
-  induction d as [|[k' v] r IH]; cbn [rec_del map fst]; intros H; [exact H|].
-  destruct (oz_eqb k k'); [now right|]. cbn [map fst] in H. destruct H as [H|H]; [now left|right; now apply IH].
-Qed.
-Lemma rec_del_nodup k d : NoDup (map fst d) -> NoDup (map fst (rec_del k d)) /\ ~ In k (map fst (rec_del k d)).
-Proof.
-  induction d as [|[k' v] r IH]; cbn [rec_del map fst]; intros H.
-  - split; [constructor|intros []].
-  - inversion H as [|? ? Hn Hr]; subst. destruct (oz_eqb k k') eqn:E.
-    + apply oz_eqb_eq in E. subst. split; [exact Hr|exact Hn].
-    + destruct (IH Hr) as [I1 I2]. cbn [map fst]. split.
-      * constructor; [intros C; apply Hn; eapply rec_del_keys_incl; exact C|exact I1].
-      * intros [C|C]; [subst; rewrite oz_eqb_refl in E; discriminate|now apply I2].
-Qed.
-Lemma rec_set_nodup k v d : NoDup (map fst d) -> NoDup (map fst (rec_set k v d)).
-Proof.
-  intros H. destruct (in_dec ozdec k (map fst d)) as [Hi|Hi].
-  - now rewrite rec_set_keys_in.
-  - rewrite rec_set_keys_notin by assumption. now apply nodup_snoc.
-Qed.
-Lemma rec_append_nodup k e d : NoDup (map fst d) -> NoDup (map fst (rec_append k e d)).
-Proof. intros H. unfold rec_append. now apply rec_set_nodup. Qed.
-Lemma opened_ninv st pc br ba rc : opened st pc = Ok (br, ba, rc) -> ninv st -> NoDup (map fst rc).
-Proof.
-  unfold opened, ninv. intros H Hn. destruct (Ascii.eqb pc "("%char).
-  - destruct (match s_prev_node st with Some p => node_attrs (s_g st) p | None => Err EKey end) as [a|]; cbn [bind] in H; [|discriminate].
-    injection H as _ _ <-. apply rec_set_nodup. now apply rec_del_nodup.
-  - injection H as _ _ <-. exact Hn.
-Qed.
 Lemma ninv_part fo st pc nm rest st1 : node_part fo st pc nm rest = Ok st1 -> ninv st -> ninv st1.
 Proof.
   intros H Hn. destruct (node_part_recipes fo st pc nm rest st1 H) as (br & ba & rc & e & Eop & _ & Erc).
